@@ -3043,6 +3043,8 @@ func CreateCertificateRequest(rand io.Reader, template *CertificateRequest, priv
 	if err != nil {
 		return nil, err
 	}
+	// An RSA-PSS algorithm identifier must be matched by a PSS signature.
+	usePSS := template.SignatureAlgorithm.isRSAPSS()
 
 	var publicKeyBytes []byte
 	var publicKeyAlgorithm pkix.AlgorithmIdentifier
@@ -3160,8 +3162,16 @@ func CreateCertificateRequest(rand io.Reader, template *CertificateRequest, priv
 
 	digest := hash(hashFunc, tbsCSRContents)
 
+	var signerOpts crypto.SignerOpts = hashFunc
+	if usePSS {
+		signerOpts = &rsa.PSSOptions{
+			SaltLength: rsa.PSSSaltLengthEqualsHash,
+			Hash:       hashFunc,
+		}
+	}
+
 	var signature []byte
-	signature, err = key.Sign(rand, digest, hashFunc)
+	signature, err = key.Sign(rand, digest, signerOpts)
 	if err != nil {
 		return
 	}
